@@ -1173,10 +1173,12 @@ func (r *c18Runner) report(expr string, pe parser.Expr, mode string, bt int64, r
 	}
 	if ek := r.explain(blamed, pe, mode, bt, rq, cls, diff, want, got); ek != "" {
 		kind = ek
-	} else if ek := r.explainLayout(blamed, pe, mode, bt, rq, cls, diff); ek != "" {
-		kind = ek
 	} else if lk := r.layoutKind(expr, pe, blamed, mode, bt, rq, want); lk != "" {
+		// the default server (one record per series) answers this case like upstream: the storage layout matters
 		kind = lk
+		if ek := r.explainLayout(blamed, pe, mode, bt, rq, cls, diff); ek != "" {
+			kind = ek
+		}
 	}
 	key := fmt.Sprintf("blamed=%s | expr=%s | set=%s | %s", blamed.String(), expr, r.set.Name, mode)
 	if r.layout != c18LayDefault {
